@@ -1278,7 +1278,7 @@ func TestC16Replay(t *testing.T) {
 // ran" = fixes/F20-serial-job-wait.diff and "verification worker must keep serving tasks after a
 // job error" = fixes/F5-workers-continue.diff) plus a few hand-picked boundary blocks.
 func TestC16Regression(t *testing.T) {
-	st := vstat.New(t, "C16", "regression: hand-written minimal cases (serial pool + ed25519 batch engine with an invalid signature in the only / final batch, Wait entered before the batch tasks ran, directly and through Processor.Execute; 1-worker pool with a failing first signature followed by further tasks and a second block; ed25519 counts exactly k*batchSize with the invalid signature first/last; the verified auth object of another tx reused on this tx for secp256r1 / ed25519 / BLS)")
+	st := vstat.New(t, "C16", "regression: hand-written minimal cases (serial pool + ed25519 batch engine with an invalid signature in the only / final batch, Wait entered before the batch tasks ran, directly and through Processor.Execute; 1-worker pool with a failing first signature followed by further tasks and a second block; ed25519 counts exactly k*batchSize with the invalid signature first/last; the verified auth object of another tx reused on this tx for secp256r1 / ed25519 / BLS; two and three batch-verified auth types with one type's worker parked in Add of its last, invalid item across AuthBatch.Done, 8 repetitions each)")
 	slots := func(n int) []c16Slot { return make([]c16Slot, n) }
 	flt := func(scheme, pos, kind int) c16Fault {
 		return c16Fault{Scheme: scheme, PosSel: pos, Kind: kind, Arg: 107}
@@ -1307,6 +1307,16 @@ func TestC16Regression(t *testing.T) {
 		{Workers: 0, BatchEngine: true, Exec: true, Blocks: []c16Block{{Counts: [4]int{5, 0, 0, 0}, Slots: slots(5), Faults: []c16Fault{flt(0, c16PosLast, c16FaultReusedVerified)}}}},
 		{Workers: 4, BatchEngine: false, Blocks: []c16Block{{Counts: [4]int{0, 0, 2, 0}, Slots: slots(2), Faults: []c16Fault{flt(4, c16PosFirst, c16FaultReusedVerified)}}}},
 		{Workers: 3, BatchEngine: true, Exec: true, Blocks: []c16Block{{Counts: [4]int{4, 2, 1, 1}, Slots: slots(8), Faults: []c16Fault{flt(4, c16PosAny, c16PreVerifiedProbed), flt(5, c16PosAny, c16PreVerified), flt(6, c16PosAny, c16FaultReusedFresh)}}}},
+	}
+	// two batch-verified types, one type's worker parked in Add of its last (invalid) item across AuthBatch.Done;
+	// a Done that flushes a verifier whose worker is still adding depends on map iteration order: repeated
+	for rep := 0; rep < 8; rep++ {
+		cases = append(cases,
+			c16Case{Workers: 2, BatchEngine: true, ExtraBatch: []int{schemeStub}, ExtraBatchSize: 2, Park: 1 + schemeEd, Blocks: []c16Block{
+				{Counts: [4]int{5, 0, 0, 3}, Slots: slots(8), Faults: []c16Fault{flt(10+schemeEd, c16PosLast, c16FaultBitFlip)}}}},
+			c16Case{Workers: 0, BatchEngine: true, Exec: true, ExtraBatch: []int{schemeSecp, schemeBLS}, ExtraBatchSize: 3, Park: 1 + schemeSecp, Blocks: []c16Block{
+				{Counts: [4]int{3, 2, 1, 0}, Slots: slots(6), Faults: []c16Fault{flt(10+schemeSecp, c16PosLast, c16FaultOtherMsg)}}}},
+		)
 	}
 	for i := range cases {
 		c := cases[i]
